@@ -27,6 +27,7 @@ from nemoguardrails.colang.v2_x.lang import colang_ast as colang_ast_module
 from nemoguardrails.colang.v2_x.runtime import flows as flows_module
 from nemoguardrails.colang.v2_x.runtime.flows import Action, State
 from nemoguardrails.colang.v2_x.runtime.statemachine import _flow_head_changed
+from nemoguardrails.colang.v2_x.runtime.utils import AttributeDict
 from nemoguardrails.rails.llm.config import RailsConfig
 
 # Load dynamically a map of all classes from the `colang_ast` and `flows` module.
@@ -95,6 +96,9 @@ def encode_to_dict(obj: Any, refs: Dict[int, Any]):
                 "__type": "dict",
                 "value": {k: encode_to_dict(v, refs) for k, v in obj.items()},
             }
+            if isinstance(obj, AttributeDict):
+                # A dictionary with attribute access (e.g. an element of `$data.items`)
+                value["__class"] = "AttributeDict"
         elif is_dataclass(obj):
             value = {
                 "__type": type(obj).__name__,
@@ -203,6 +207,8 @@ def decode_from_dict(d: Any, refs: Dict[int, Any]):
 
             elif d_type == "dict":
                 value = {k: decode_from_dict(v, refs) for k, v in d["value"].items()}
+                if d.get("__class") == "AttributeDict":
+                    value = AttributeDict(value)
 
             elif d_type == "dict_items":
                 value = {
